@@ -390,6 +390,46 @@ def es_sensitivity(ctx):
         raise M.Inconclusive("model is not sensitive to deviation(s) %s" % bad)
 
 
+# liveness: the "eventually" halves of the properties (EioSession.tla FairSpec: one weak-fairness condition per server goroutine
+# and timer, a client that keeps polling, strong fairness for the candidate's upgrade packet), checked by TLC on instances
+# without history (feature nohist, no VIEW); every liveness property has a deviation that must violate it
+ES_LIVE_ALL = "L_C01_Delivered L_C08_UpgradeCompletes L_C11_PollAnswered L_C12_ClosingCloses L_NoLivelock"
+ES_LIVE = {
+    # name: (quick (msgs, polls, features), thorough (msgs, polls, features))
+    "life": (("{1,2}", 3, '{"close","peer","heartbeat","overlap","closewin","cwindow","ctimeout","nohist"}'),
+             ("{1,2}", 4, '{"overlap","peer","close","abort","window","dwindow","cwindow","ctimeout","heartbeat","nohist"}')),
+    "upg": (("{1}", 3, '{"upgrade","window","close","heartbeat","ctimeout","closewin","late","nohist"}'),
+            ("{1,2}", 3, '{"upgrade","window","close","heartbeat","ctimeout","closewin","late","nohist"}')),
+}
+ES_LIVE_DEVS = [
+    ("TimeoutOnlyOpen", "L_C12_ClosingCloses", 2, '{"close","heartbeat","ctimeout","window","nohist"}'),
+    ("CloseMissesDrain", "L_C12_ClosingCloses", 3, '{"close","ctimeout","window","cwindow","dwindow","nohist"}'),
+    ("FlushForgets", "L_C01_Delivered", 3, '{"window","dwindow","nohist"}'),
+    ("PollVsClose", "L_C11_PollAnswered", 3, '{"close","peer","closewin","nohist"}'),
+    ("NoCheck", "L_C08_UpgradeCompletes", 3, '{"upgrade","nohist"}'),
+]
+
+
+def live_cfg(msgs, polls, feats, props, dev="{}"):
+    return ("SPECIFICATION FairSpec\nCONSTANTS Msgs = %s CliMsgs = {} MaxPolls = %d MaxPings = 1 Features = %s Deviations = %s\n"
+            "INVARIANTS TypeOK\nPROPERTIES %s\nCHECK_DEADLOCK FALSE\n" % (msgs, polls, feats, dev, props))
+
+
+def es_liveness(ctx):
+    out = {}
+    for dev, prop, polls, feats in ES_LIVE_DEVS:
+        out["%s/%s" % (dev, prop)] = M.tlc_expect_violation(ctx, "EioSession", live_cfg("{1,2}", polls, feats, prop, '{"%s"}' % dev),
+                                                           "live_dev_" + dev, prop, workers=4)
+    ctx.extra["liveness_deviations_detected"] = out
+    bad = [k for k, ok in out.items() if not ok]
+    if bad:
+        raise M.Inconclusive("the liveness properties are not sensitive to %s" % bad)
+    for name, (qc, tc) in ES_LIVE.items():
+        msgs, polls, feats = qc if ctx.quick else tc
+        M.tlc_model(ctx, "EioSession", live_cfg(msgs, polls, feats, ES_LIVE_ALL), "live_" + name, timeout=2400)
+    ctx.extra["liveness_properties_checked"] = ES_LIVE_ALL.split()
+
+
 def eng_run(ctx, fams, nrandom_q=60, nrandom_t=900, extra_fams=()):
     """model-check EioSession for the families, replay simulated behaviours + seeded scripts, monitor with EioMon."""
     q = ctx.quick
@@ -397,6 +437,7 @@ def eng_run(ctx, fams, nrandom_q=60, nrandom_t=900, extra_fams=()):
     viols = []
     if fams:
         es_sensitivity(ctx)
+        es_liveness(ctx)
     for fam in fams:
         qc, tc = ES_FAMS[fam]
         c = qc if q else tc
@@ -460,10 +501,69 @@ def race_run(ctx):
     return v
 
 
-def eng_prop(pid, fams, extra=(), nq=60, nt=900, race=False):
+# ---- Registry.tla: several sessions at once (handshake steps x close causes x lookups x shutdown)
+REG_INV = "TypeOK C04_Quiescent C04_NoUnderflow C04_Lookups C03_OneClose C03_HandedOpen C03_CloseEmitted C12_ShutdownEmpties"
+REG_DEVS = [("NoRecheck", "C03_HandedOpen"), ("BlindUnreg", "C04_Quiescent"), ("CloseRace", "C03_OneClose"), ("RangeSkipsClosing", "C12_ShutdownEmpties")]
+
+
+def reg_cfg(sess, feats, inv=REG_INV, dev="{}", view=True):
+    return ("SPECIFICATION Spec\nCONSTANTS Sess = %s Features = %s Deviations = %s\n%sINVARIANTS %s\nCHECK_DEADLOCK FALSE\n"
+            % (sess, feats, dev, "VIEW view\n" if view else "", inv))
+
+
+def reg_run(ctx):
+    """model-check Registry.tla, replay every transition of a bounded instance (and the counterexamples of its deviations) into the
+    real server with the state projection compared after every step, judge the traces with EioMon."""
+    q = ctx.quick
+    M.tlc_model(ctx, "Registry", reg_cfg('{"a","b"}', '{"srvclose","lookup","graceful","fine"}'), "reg_ab")
+    if not q:
+        M.tlc_model(ctx, "Registry", reg_cfg('{"a","b","c"}', '{"srvclose","graceful","fine"}'), "reg_abc", timeout=1800)
+    behs, sens = [], {}
+    for dev, inv in REG_DEVS:
+        ok = M.tlc_expect_violation(ctx, "Registry", reg_cfg('{"a","b"}', '{"srvatomic","graceful","fine"}', inv=inv, dev='{"%s"}' % dev),
+                                    "reg_dev_" + dev, inv)
+        sens[dev] = ok
+        if ok and ctx.last_counterexample:
+            b = ctx.last_counterexample
+            b[0]["fine"] = True
+            behs.append(b)
+    ctx.extra["registry_deviations_detected"] = sens
+    if not all(sens.values()):
+        raise M.Inconclusive("Registry.tla is not sensitive to %s" % [k for k, v in sens.items() if not v])
+    feats = '{"srvatomic","graceful","fine","lastonly"}' if q else '{"srvatomic","lookup","graceful","fine","lastonly"}'
+    d = M.tlc_dir(ctx, "g_reg")
+    M.write_cfg(d, "g", reg_cfg('{"a","b"}', feats, inv="TypeOK", view=False))
+    rc, out = M.sh(["tlc", "-workers", "8", "-metadir", os.path.join(d, "meta"), "-dump", "dot,actionlabels", os.path.join(d, "graph"),
+                    "-config", "g.cfg", "Registry.tla"], cwd=d, timeout=1800)
+    if rc == 124 or "Model checking completed. No error" not in out:
+        raise M.Inconclusive("state graph dump of Registry.tla failed (see %s)" % d)
+    outp = os.path.join(ctx.work, "cover_reg.json")
+    rc, o2 = M.sh([sys.executable, os.path.join(M.ROOT, "tools", "tcover.py"), os.path.join(d, "graph.dot"), outp, "45", "0", "registry"], timeout=1800)
+    if rc != 0:
+        raise M.Inconclusive("tcover failed for Registry: %s" % o2[-500:])
+    info = json.loads(o2.strip().splitlines()[-1])
+    os.remove(os.path.join(d, "graph.dot"))
+    shutil.rmtree(os.path.join(d, "meta"), ignore_errors=True)
+    ctx.extra.setdefault("transition_cover", {})["registry"] = info
+    ctx.states += info["states"]
+    ctx.transitions += info["transitions"]
+    behs += json.load(open(outp))
+    ctx.extra["behaviours_replayed"] = ctx.extra.get("behaviours_replayed", 0) + len(behs)
+    trace, summ = M.go_family(ctx, "reg", behaviours=behs, timeout=3000)
+    v, lines = M.tlc_trace(ctx, "EioMon", MON_EIO_CFG, "reg", trace, timeout=3000)
+    ctx.traces += summ.get("stats", {}).get("scenarios", 0)
+    ctx.events += lines
+    return v, M.read_trace(trace)
+
+
+def eng_prop(pid, fams, extra=(), nq=60, nt=900, race=False, reg=False):
     @prop(pid)
     def f(ctx):
         evs = eng_run(ctx, fams, nq, nt, extra)
+        if reg:
+            v, revs = reg_run(ctx)
+            M.classify(ctx, v)
+            evs = evs + revs
         if race:
             M.classify(ctx, race_run(ctx))
         ctx.assumptions = ENG_ASSUME
@@ -473,8 +573,8 @@ def eng_prop(pid, fams, extra=(), nq=60, nt=900, race=False):
 
 eng_prop("C01", ["flow", "upg"], extra=("direct",), race=True)
 eng_prop("C02", ["flow", "poll"], extra=("direct",))
-eng_prop("C03", ["life"], extra=("direct",), nq=90, race=True)
-eng_prop("C04", ["life"], nq=90, race=True)
+eng_prop("C03", ["life"], extra=("direct",), nq=90, race=True, reg=True)
+eng_prop("C04", ["life"], nq=90, race=True, reg=True)
 BEAT_CFG = ("SPECIFICATION Spec\nCONSTANTS PI = %d PT = %d MaxNow = %d Delays = %s\n"
             "INVARIANTS NoMissedPing NoMissedTimeout TimeoutExact AnsweredNeverClosed PingSchedule\nCHECK_DEADLOCK FALSE\n")
 
@@ -491,7 +591,7 @@ def c07(ctx):
                     "(polling and websocket, revisions 3 and 4, 9 interval/timeout pairs) driven on the same grid under the virtual clock", evs=evs)
 eng_prop("C08", ["upg"], extra=("direct",), nq=90)
 eng_prop("C11", ["poll"], extra=("direct",), nq=90)
-eng_prop("C12", ["life", "poll"], extra=("grace", "direct"))
+eng_prop("C12", ["life", "poll"], extra=("grace", "direct"), reg=True)
 eng_prop("C18", ["flow"], extra=("reent", "direct"), nq=90)
 
 
